@@ -123,6 +123,12 @@ class LogicalStore(ValueStore):
         return tick_to_dt(self.time)
 
     def __repr__(self):
+        # nothing documents that distinct stores have distinct reprs (or reprs that stay distinct when abbreviated)
+        style = self.world.spec.get("store_repr") if isinstance(getattr(self.world, "spec", None), dict) else None
+        if style == "same":
+            return "LogicalStore()"
+        if style == "long":
+            return f"LogicalStore('/data/{'p' * 30}/{self.idx}/{'q' * 70}/value.pkl')"
         return f"LogicalStore({self.idx})"
 
 
